@@ -171,6 +171,35 @@ theorem complete_enum_stages (n : Nat) (S : DSchema) (vars : Vars) (tn : String)
     complete (n+1) S vars (.named tn) v subs = bind (wrap S.impls "out" dirs ret v) (enumSerialise S.impls vals) := by
   simp [complete, ho, ha, hs]
 
+/-- the non-null check: applied to what the inner completion — type-level output hooks included — produced -/
+def nonNullCheck (r : DV) : R DV := match r with | .null => none | _ => ret r
+
+/-- a NON-NULL wrapper does not shield a value (a null included) from the type-level output hooks: the inner
+    type is completed first (hooks, then serialisation), the non-null check sees the outcome of that -/
+theorem nonNull_check_after_type_hooks (n : Nat) (S : DSchema) (vars : Vars) (tn : String) (dirs : List Use) (v : DV) (subs : List Sel)
+    (ho : S.findObj tn = none) (ha : S.findAbs tn = none) (hs : S.findIn tn = some (.scalar tn dirs)) :
+    complete (n+2) S vars (.nonNull (.named tn)) v subs
+      = bind (bind (wrap S.impls "out" dirs ret v) scalarSerialise) nonNullCheck := by
+  have h := complete_scalar_stages n S vars tn dirs v subs ho ha hs
+  rw [← h]
+  simp only [complete, nonNullCheck]
+  rfl
+
+/-- in particular the hooks of a hooked scalar run exactly once on a NULL resolved for a `T!` position (the chain of
+    `wrap_spec` is entered with `.null`), and a hook chain answering a non-null string makes the field succeed -/
+theorem nonNull_null_still_hooked (n : Nat) (S : DSchema) (vars : Vars) (tn : String) (dirs : List Use) (subs : List Sel)
+    (ho : S.findObj tn = none) (ha : S.findAbs tn = none) (hs : S.findIn tn = some (.scalar tn dirs))
+    (s : String) (evs : List Ev) (hw : wrap S.impls "out" dirs ret .null = some (.str s, evs)) :
+    complete (n+2) S vars (.nonNull (.named tn)) .null subs = some (.str s, evs) := by
+  rw [nonNull_check_after_type_hooks n S vars tn dirs .null subs ho ha hs, hw]
+  simp [Dir.bind, scalarSerialise, nonNullCheck, ret]
+
+/-- list items: each item of `[T]` / `[T!]` is completed on its own (so hooked once per item, nulls included) -/
+theorem list_items_completed_one_by_one (n : Nat) (S : DSchema) (vars : Vars) (t : TypeRef) (xs : List DV) (subs : List Sel) :
+    complete (n+1) S vars (.list t) (.list xs) subs
+      = bind (mapR (fun x => complete n S vars t x subs) xs) (fun rs => ret (.list rs)) := by
+  simp [complete]
+
 /-- … and inside `enumSerialise` the hooks of the enum VALUE that was resolved run on it -/
 theorem enumSerialise_value_hooks (I : List DImpl) (vals : List (String × List Use)) (s : String) (vdirs : List Use)
     (h : vals.find? (fun p => p.1 == s) = some (s, vdirs)) :
